@@ -19,13 +19,16 @@ from ..cfg import CFG, node_calls
 
 LEVEL = "other"
 TECHNIQUE = "CFG ordering / pairing queries and a branch partition over abstract data lengths on readChunk"
-CLAIM = ("Three necessary conditions of chunk-boundary independence in readChunk, over all paths: CR LF is normalised before "
-         "lone CR; a withheld trailing character is removed from the data exactly when it is buffered and is cleared exactly "
-         "when it is re-injected; every non-empty read evaluates the trailing-CR / lead-surrogate test before normalisation; "
-         "chunk and chunkSize are updated together with agreeing values; char() refills at the chunk end and unget() prepends at a "
-         "chunk start.")
-NOT_DECIDED = ("everything else: line/column bookkeeping across chunks, BufferedStream replay, decoder behaviour, charsUntil "
-               "across chunk boundaries, equality of trees and error lists for all segmentations.")
+CLAIM = ('Three necessary conditions of chunk-boundary independence in readChunk, over all paths: CR LF is '
+         'normalised before lone CR; a withheld trailing character is removed from the data exactly when it is '
+         'buffered and is cleared exactly when it is re-injected; every non-empty read evaluates the trailing- '
+         'CR / lead-surrogate test before normalisation; chunk and chunkSize are updated together with '
+         'agreeing values; char() refills at the chunk end and unget() prepends at a chunk start. Whatever '
+         'readChunk publishes as the chunk has passed the lone-CR replacement; the position of the chunk being '
+         'replaced is accumulated from its old size on every path that replaces or resets it; charsUntil '
+         "treats 'no match' as a stop only when the offset is not at the chunk end.")
+NOT_DECIDED = ('everything else: line/column arithmetic inside _position, BufferedStream replay, decoder behaviour, '
+               'equality of trees and error lists for all segmentations.')
 MODULES = ["_inputstream.py"]
 REL = "_inputstream.py"
 
